@@ -255,5 +255,324 @@ theorem inv_add (s : St C) (p : List C) (h : Inv s) : Inv (add s p).1 := by
             exact List.prefix_refl _
       · exact nodup_setUnion _ _ ((List.filter_sublist).nodup h.items_nodup)
 
+theorem inv_remove (s : St C) (p : List C) (h : Inv s) : Inv (remove s p).1 := by
+  unfold remove
+  split
+  · exact h
+  · rename_i hp
+    have hp : p ∈ s.paths := by simpa using hp
+    have hpaths : ∀ q, q ∈ s.paths.erase p ↔ q ≠ p ∧ q ∈ s.paths := fun q => h.paths_nodup.mem_erase_iff
+    dsimp only
+    split
+    · rename_i hnone
+      refine ⟨h.paths_nodup.erase p, ?_, ?_, (List.filter_sublist).nodup h.items_nodup,
+        (List.filter_sublist).nodup h.tm_nodup, ?_⟩
+      · intro it hit
+        simp only [List.mem_filter, decide_eq_true_eq] at hit
+        exact (hpaths _).2 ⟨hit.2, h.owner it hit.1⟩
+      · intro it hit q hq hpre
+        simp only [List.mem_filter, decide_eq_true_eq] at hit
+        exact h.innermost it hit.1 q ((hpaths q).1 hq).2 hpre
+      · intro it
+        simp only [tmCleanup, List.mem_filter, decide_eq_true_eq]
+        constructor
+        · exact fun h1 => h1.2
+        · intro h1; exact ⟨(h.tm_sync it).2 h1.1, h1⟩
+    · rename_i par hsome
+      obtain ⟨hpar, hparne, hparpre, hparmax⟩ := innermostParent_some _ _ _ hsome
+      have hmem : ∀ it, it ∈ setUnion (s.items.filter (fun it => decide (it.sd ≠ p)))
+          ((s.items.filter (fun it => decide (it.sd = p))).map (rebase par)) ↔
+          (it ∈ s.items ∧ it.sd ≠ p) ∨ ∃ it0 ∈ s.items, it0.sd = p ∧ rebase par it0 = it := by
+        intro it
+        simp only [mem_setUnion, List.mem_filter, List.mem_map, decide_eq_true_eq]
+        constructor
+        · rintro (h1 | ⟨it0, ⟨h1, h2⟩, h3⟩)
+          · exact Or.inl h1
+          · exact Or.inr ⟨it0, h1, h2, h3⟩
+        · rintro (h1 | ⟨it0, h1, h2, h3⟩)
+          · exact Or.inl h1
+          · exact Or.inr ⟨it0, ⟨h1, h2⟩, h3⟩
+      have htm := tm_step s.tm s.items
+        (setUnion (s.items.filter (fun it => decide (it.sd ≠ p)))
+          ((s.items.filter (fun it => decide (it.sd = p))).map (rebase par))) par
+        h.tm_nodup h.tm_sync (by
+          intro it hit
+          rcases (hmem it).1 hit with ⟨h1, _⟩ | ⟨it0, _, _, h4⟩
+          · exact Or.inl h1
+          · right; rw [← h4]; rfl)
+      refine ⟨h.paths_nodup.erase p, ?_, ?_, ?_, htm.1, htm.2⟩
+      · intro it hit
+        rcases (hmem it).1 hit with ⟨h1, h2⟩ | ⟨it0, _, _, h4⟩
+        · exact (hpaths _).2 ⟨h2, h.owner it h1⟩
+        · rw [← h4]; exact hpar
+      · intro it hit q hq hpre
+        have hq' := (hpaths q).1 hq
+        rcases (hmem it).1 hit with ⟨h1, _⟩ | ⟨it0, h1, h2, h4⟩
+        · exact h.innermost it h1 q hq'.2 hpre
+        · subst h4
+          have hpd : par <+: it0.dir := by
+            have := sd_prefix_dir it0
+            rw [h2] at this
+            exact hparpre.trans this
+          rw [rebase_dir par it0 hpd] at hpre
+          simp only [rebase_sd]
+          have := h.innermost it0 h1 q hq'.2 hpre
+          rw [h2] at this
+          exact hparmax q hq hq'.1 this
+      · exact nodup_setUnion _ _ ((List.filter_sublist).nodup h.items_nodup)
+
+theorem mem_scanned (paths : List (List C)) (p : List C) (disk : List (File C)) (it : Item C) :
+    it ∈ scanned paths p disk ↔
+      ∃ f ∈ disk, p <+: f.dir ∧ (∀ c ∈ children paths p, ¬ c <+: f.dir) ∧
+        it = { sd := p, sub := f.dir.drop p.length, name := f.name } := by
+  simp only [scanned, mem_dedup, List.mem_map, List.mem_filter, Bool.and_eq_true, Bool.not_eq_true',
+    List.isPrefixOf_iff_prefix, List.any_eq_false]
+  constructor
+  · rintro ⟨f, ⟨hf, h1, h2⟩, rfl⟩
+    exact ⟨f, hf, h1, by simpa using h2, rfl⟩
+  · rintro ⟨f, hf, h1, h2, rfl⟩
+    exact ⟨f, ⟨hf, h1, by simpa using h2⟩, rfl⟩
+
+theorem mem_scanDir_items (s : St C) (p : List C) (disk : List (File C)) (it : Item C) :
+    it ∈ (scanDir s p disk).items ↔ (it ∈ s.items ∧ it.sd ≠ p) ∨ it ∈ scanned s.paths p disk := by
+  simp [scanDir, mem_setUnion, List.mem_filter]
+
+theorem inv_scanDir (s : St C) (p : List C) (disk : List (File C)) (h : Inv s) (hp : p ∈ s.paths) :
+    Inv (scanDir s p disk) ∧ (scanDir s p disk).paths = s.paths := by
+  refine ⟨?_, rfl⟩
+  have hsc : ∀ it ∈ scanned s.paths p disk, it.sd = p ∧ ∀ q ∈ s.paths, q <+: it.dir → q <+: p := by
+    intro it hit
+    obtain ⟨f, _, h1, h2, rfl⟩ := (mem_scanned _ _ _ _).1 hit
+    refine ⟨rfl, ?_⟩
+    intro q hq hpre
+    have hdir : (Item.dir { sd := p, sub := f.dir.drop p.length, name := f.name } : List C) = f.dir :=
+      List.prefix_iff_eq_append.1 h1
+    rw [hdir] at hpre
+    rcases prefix_total hpre h1 with h3 | h3
+    · exact h3
+    · by_cases hqp : q = p
+      · subst hqp; exact List.prefix_refl _
+      · exfalso
+        apply h2 q _ hpre
+        simp only [children, List.mem_filter, Bool.and_eq_true, decide_eq_true_eq, List.isPrefixOf_iff_prefix]
+        exact ⟨hq, hqp, h3⟩
+  have htm := tm_step s.tm s.items (scanDir s p disk).items p h.tm_nodup h.tm_sync (by
+    intro it hit
+    rcases (mem_scanDir_items s p disk it).1 hit with ⟨h1, _⟩ | h1
+    · exact Or.inl h1
+    · exact Or.inr (hsc it h1).1)
+  refine ⟨h.paths_nodup, ?_, ?_, ?_, htm.1, htm.2⟩
+  · intro it hit
+    rcases (mem_scanDir_items s p disk it).1 hit with ⟨h1, _⟩ | h1
+    · exact h.owner it h1
+    · show it.sd ∈ s.paths
+      rw [(hsc it h1).1]; exact hp
+  · intro it hit q hq hpre
+    rcases (mem_scanDir_items s p disk it).1 hit with ⟨h1, _⟩ | h1
+    · exact h.innermost it h1 q hq hpre
+    · rw [(hsc it h1).1]; exact (hsc it h1).2 q hq hpre
+  · exact nodup_setUnion _ _ ((List.filter_sublist).nodup h.items_nodup)
+
+theorem inv_scanAll (disk : List (File C)) (l : List (List C)) (s : St C) (h : Inv s) (hl : ∀ p ∈ l, p ∈ s.paths) :
+    Inv (l.foldl (fun s p => scanDir s p disk) s) ∧ (l.foldl (fun s p => scanDir s p disk) s).paths = s.paths := by
+  induction l generalizing s with
+  | nil => exact ⟨h, rfl⟩
+  | cons p l ih =>
+    obtain ⟨h1, h2⟩ := inv_scanDir s p disk h (hl p List.mem_cons_self)
+    have := ih (scanDir s p disk) h1 (by intro q hq; rw [h2]; exact hl q (List.mem_cons_of_mem _ hq))
+    exact ⟨this.1, this.2.trans h2⟩
+
+theorem inv_step (s : St C) (op : Op C) (h : Inv s) : Inv (step s op).1 := by
+  cases op with
+  | add p => exact inv_add s p h
+  | remove p => exact inv_remove s p h
+  | update p => simp only [step]; split <;> exact h
+  | scan p disk =>
+    simp only [step, scan]
+    split
+    · exact h
+    · rename_i hp
+      exact (inv_scanDir s p disk h (by simpa using hp)).1
+  | scanAll disk => exact (inv_scanAll disk s.paths s h (fun _ hp => hp)).1
+
+theorem inv_run (ops : List (Op C)) : Inv (run ops) := by
+  unfold run
+  have : ∀ (s : St C), Inv s → Inv (ops.foldl (fun s op => (step s op).1) s) := by
+    induction ops with
+    | nil => intro s h; exact h
+    | cons op ops ih => intro s h; exact ih _ (inv_step s op h)
+  exact this _ inv_init
+
+/-! ### consequences of the invariant -/
+
+/-- an absolute file path is indexed at most once -/
+theorem abs_inj (s : St C) (h : Inv s) (a b : Item C) (ha : a ∈ s.items) (hb : b ∈ s.items) (hab : a.abs = b.abs) :
+    a = b := by
+  have hdir : a.dir = b.dir ∧ a.name = b.name := by
+    have : a.dir ++ [a.name] = b.dir ++ [b.name] := hab
+    have h1 := List.append_inj' this rfl
+    exact ⟨h1.1, by simpa using h1.2⟩
+  have h1 : b.sd <+: a.sd := h.innermost a ha b.sd (h.owner b hb) (hdir.1 ▸ sd_prefix_dir b)
+  have h2 : a.sd <+: b.sd := h.innermost b hb a.sd (h.owner a ha) (hdir.1 ▸ sd_prefix_dir a)
+  have hsd : a.sd = b.sd := prefix_antisymm h2 h1
+  have hsub : a.sub = b.sub := by
+    have : a.sd ++ a.sub = b.sd ++ b.sub := hdir.1
+    rw [hsd] at this
+    exact List.append_cancel_left this
+  cases a; cases b
+  simp_all
+
+/-! ### counting -/
+
+theorem sum_map_add {α : Type} (l : List α) (f g : α → Nat) :
+    (l.map (fun d => f d + g d)).sum = (l.map f).sum + (l.map g).sum := by
+  induction l with
+  | nil => rfl
+  | cons x l ih => simp only [List.map_cons, List.sum_cons, ih]; omega
+
+theorem sum_indicator_zero (ps : List (List C)) (x : List C) (hx : x ∉ ps) :
+    (ps.map (fun d => if x = d then 1 else 0)).sum = 0 := by
+  induction ps with
+  | nil => rfl
+  | cons d ps ih =>
+    have h1 : x ≠ d := fun e => hx (e ▸ List.mem_cons_self)
+    have h2 : x ∉ ps := fun e => hx (List.mem_cons_of_mem _ e)
+    simp [h1, ih h2]
+
+theorem sum_indicator_one (ps : List (List C)) (x : List C) (hn : ps.Nodup) (hx : x ∈ ps) :
+    (ps.map (fun d => if x = d then 1 else 0)).sum = 1 := by
+  induction ps with
+  | nil => simp at hx
+  | cons d ps ih =>
+    rw [List.nodup_cons] at hn
+    by_cases h1 : x = d
+    · subst h1
+      simp [sum_indicator_zero ps x hn.1]
+    · have h2 : x ∈ ps := by
+        rcases List.mem_cons.1 hx with h | h
+        · exact absurd h h1
+        · exact h
+      simp [h1, ih hn.2 h2]
+
+/-- the per-directory file counts add up to the number of indexed items -/
+theorem sum_dir_lengths (ps : List (List C)) (hn : ps.Nodup) (l : List (Item C)) (hl : ∀ it ∈ l, it.sd ∈ ps) :
+    (ps.map (fun d => (l.filter (fun it => decide (it.sd = d))).length)).sum = l.length := by
+  induction l with
+  | nil =>
+    have : ∀ ps : List (List C), (ps.map (fun _ => 0)).sum = 0 := by
+      intro ps; induction ps <;> simp_all
+    simpa using this ps
+  | cons it l ih =>
+    have h1 : ∀ d, ((it :: l).filter (fun it => decide (it.sd = d))).length
+        = (if it.sd = d then 1 else 0) + (l.filter (fun it => decide (it.sd = d))).length := by
+      intro d
+      by_cases hd : it.sd = d
+      · simp [List.filter, hd]; omega
+      · simp [List.filter, hd]
+    simp only [h1]
+    rw [sum_map_add, sum_indicator_one ps it.sd hn (hl it List.mem_cons_self),
+      ih (fun x hx => hl x (List.mem_cons_of_mem _ hx))]
+    simp; omega
+
+theorem sum_indicator (ps : List (List C)) (x : List C) (k : Nat) (hn : ps.Nodup) (hx : x ∈ ps) :
+    (ps.map (fun d => if x = d then k else 0)).sum = k := by
+  have h1 : ∀ d, (if x = d then k else 0) = k * (if x = d then 1 else 0) := by
+    intro d; split <;> simp
+  have h2 : ∀ (l : List (List C)) (f : List C → Nat), (l.map (fun d => k * f d)).sum = k * (l.map f).sum := by
+    intro l f
+    induction l with
+    | nil => simp
+    | cons a l ih => simp only [List.map_cons, List.sum_cons, ih, Nat.mul_add]
+  simp only [h1]
+  rw [h2, sum_indicator_one ps x hn hx]
+  simp
+
+theorem dedup_cons_length {α : Type} [DecidableEq α] (x : α) (l : List α) :
+    (dedup (x :: l)).length = (if x ∈ l then 0 else 1) + (dedup l).length := by
+  simp only [dedup]
+  split <;> simp <;> omega
+
+theorem dedup_map_length_congr {α β γ : Type} [DecidableEq β] [DecidableEq γ] (l : List α) (f : α → β) (g : α → γ)
+    (h : ∀ x ∈ l, ∀ y ∈ l, f x = f y ↔ g x = g y) :
+    (dedup (l.map f)).length = (dedup (l.map g)).length := by
+  induction l with
+  | nil => rfl
+  | cons x l ih =>
+    simp only [List.map_cons, dedup_cons_length]
+    have hiff : f x ∈ l.map f ↔ g x ∈ l.map g := by
+      simp only [List.mem_map]
+      constructor
+      · rintro ⟨y, hy, hxy⟩
+        exact ⟨y, hy, ((h x List.mem_cons_self y (List.mem_cons_of_mem _ hy)).1 hxy.symm).symm⟩
+      · rintro ⟨y, hy, hxy⟩
+        exact ⟨y, hy, ((h x List.mem_cons_self y (List.mem_cons_of_mem _ hy)).2 hxy.symm).symm⟩
+    rw [ih (fun a ha b hb => h a (List.mem_cons_of_mem _ ha) b (List.mem_cons_of_mem _ hb))]
+    by_cases hx : f x ∈ l.map f
+    · simp [hx, hiff.1 hx]
+    · have : ¬ g x ∈ l.map g := fun e => hx (hiff.2 e)
+      simp [hx, this]
+
+/-- the per-directory counts of distinct folders add up to the number of distinct folders, when
+items of different shared directories never lie in the same folder -/
+theorem sum_dir_folders (ps : List (List C)) (hn : ps.Nodup) (l : List (Item C)) (hl : ∀ it ∈ l, it.sd ∈ ps)
+    (hsep : ∀ a ∈ l, ∀ b ∈ l, a.dir = b.dir → a.sd = b.sd) :
+    (ps.map (fun d => (dedup ((l.filter (fun it => decide (it.sd = d))).map Item.dir)).length)).sum
+      = (dedup (l.map Item.dir)).length := by
+  induction l with
+  | nil =>
+    have : ∀ ps : List (List C), (ps.map (fun _ => 0)).sum = 0 := by
+      intro ps; induction ps <;> simp_all
+    simpa [dedup] using this ps
+  | cons it l ih =>
+    have hiff : it.dir ∈ l.map Item.dir ↔ it.dir ∈ (l.filter (fun x => decide (x.sd = it.sd))).map Item.dir := by
+      simp only [List.mem_map, List.mem_filter, decide_eq_true_eq]
+      constructor
+      · rintro ⟨y, hy, hxy⟩
+        exact ⟨y, ⟨hy, hsep y (List.mem_cons_of_mem _ hy) it List.mem_cons_self hxy⟩, hxy⟩
+      · rintro ⟨y, ⟨hy, _⟩, hxy⟩
+        exact ⟨y, hy, hxy⟩
+    have h1 : ∀ d, (dedup (((it :: l).filter (fun x => decide (x.sd = d))).map Item.dir)).length
+        = (if it.sd = d then (if it.dir ∈ l.map Item.dir then 0 else 1) else 0)
+          + (dedup ((l.filter (fun x => decide (x.sd = d))).map Item.dir)).length := by
+      intro d
+      by_cases hd : it.sd = d
+      · subst hd
+        simp only [List.filter, decide_true, List.map_cons, dedup_cons_length, if_true]
+        by_cases hx : it.dir ∈ l.map Item.dir
+        · simp [hx, hiff.1 hx]
+        · have : ¬ it.dir ∈ (l.filter (fun x => decide (x.sd = it.sd))).map Item.dir := fun e => hx (hiff.2 e)
+          simp [hx, this]
+      · simp [List.filter, hd]
+    simp only [h1]
+    rw [sum_map_add, sum_indicator ps it.sd _ hn (hl it List.mem_cons_self),
+      ih (fun x hx => hl x (List.mem_cons_of_mem _ hx))
+        (fun a ha b hb => hsep a (List.mem_cons_of_mem _ ha) b (List.mem_cons_of_mem _ hb))]
+    rw [List.map_cons, dedup_cons_length]
+    by_cases hx : it.dir ∈ l.map Item.dir <;> simp [hx]
+
+theorem dir_sep (s : St C) (h : Inv s) : ∀ a ∈ s.items, ∀ b ∈ s.items, a.dir = b.dir → a.sd = b.sd := by
+  intro a ha b hb hab
+  have h1 : b.sd <+: a.sd := h.innermost a ha b.sd (h.owner b hb) (hab ▸ sd_prefix_dir b)
+  have h2 : a.sd <+: b.sd := h.innermost b hb a.sd (h.owner a ha) (hab ▸ sd_prefix_dir a)
+  exact prefix_antisymm h2 h1
+
+/-- `get_stats()` of a state satisfying the invariant: distinct absolute folders, indexed files -/
+theorem stats_eq (s : St C) (h : Inv s) :
+    stats s = ((dedup (s.items.map Item.dir)).length, s.items.length) := by
+  unfold stats dirItems
+  rw [sum_dir_lengths s.paths h.paths_nodup s.items h.owner]
+  congr 1
+  rw [← sum_dir_folders s.paths h.paths_nodup s.items h.owner (dir_sep s h)]
+  congr 1
+  apply List.map_congr_left
+  intro d _
+  apply dedup_map_length_congr
+  intro x hx y hy
+  simp only [List.mem_filter, decide_eq_true_eq] at hx hy
+  simp only [Item.dir, hx.2, hy.2]
+  constructor
+  · intro e; rw [e]
+  · exact List.append_cancel_left
+
 end
 end AioslskVerif.Shares
